@@ -369,7 +369,7 @@ func positionProvenance(c *Ctx, v ssa.Value, depth int) (string, bool) {
 			// every caller passes a position
 			fn := x.Parent()
 			idx := paramIndex(fn, x)
-			calls := callsTo(p.Funcs(), fn)
+			calls := callSitesOf(p, fn)
 			if len(calls) == 0 {
 				return "", false
 			}
@@ -1053,7 +1053,7 @@ func c20ResolveOption(c *Ctx, v ssa.Value) ssa.Value {
 	}
 	fn := prm.Parent()
 	idx := paramIndex(fn, prm)
-	calls := callsTo(c.P.Funcs(), fn)
+	calls := callSitesOf(c.P, fn)
 	if len(calls) == 0 || idx < 0 {
 		return v
 	}
@@ -1085,7 +1085,7 @@ func c20OptionCallsD(c *Ctx, v ssa.Value, fnMessage, fnAt *ssa.Function, depth i
 	if prm, ok := v.(*ssa.Parameter); ok {
 		fn := prm.Parent()
 		idx := paramIndex(fn, prm)
-		sites := callsTo(c.P.Funcs(), fn)
+		sites := callSitesOf(c.P, fn)
 		if len(sites) == 0 || idx < 0 {
 			return nil, false
 		}
